@@ -43,6 +43,32 @@ func asI(x any) int {
 }
 func asB(x any) bool { return x.(bool) }
 
+// Attribute names / map keys with an abstract (multi-letter) name in the specification.
+var absAttrNames = map[string]string{"eacute": "\u00e9", "ctl": "\x1f", "dq": "\"", "sp": "a b"}
+var realAttrNames = map[string]string{}
+
+func init() {
+	for a, r := range absAttrNames {
+		realAttrNames[r] = a
+	}
+}
+
+// realName gives the real spelling of an abstract attribute name / key.
+func realName(n string) string {
+	if r, ok := absAttrNames[n]; ok {
+		return r
+	}
+	return n
+}
+
+// absName gives the specification's name for a real attribute name / key.
+func absName(s string) string {
+	if a, ok := realAttrNames[s]; ok {
+		return a
+	}
+	return s
+}
+
 func ConcretizeType(t J) cty.Type {
 	switch asS(t["k"]) {
 	case "dynamic":
@@ -69,12 +95,12 @@ func ConcretizeType(t J) cty.Type {
 		as := map[string]cty.Type{}
 		if m, ok := t["as"].(map[string]any); ok {
 			for n, a := range m {
-				as[n] = ConcretizeType(asJ(a))
+				as[realName(n)] = ConcretizeType(asJ(a))
 			}
 		}
 		opt := []string{}
 		for _, o := range asL(t["opt"]) {
-			opt = append(opt, asS(o))
+			opt = append(opt, realName(asS(o)))
 		}
 		if len(opt) > 0 {
 			return cty.ObjectWithOptionalAttrs(as, opt)
@@ -312,9 +338,9 @@ func concretizeMap(x any, rep int) map[string]cty.Value {
 	}
 	sort.Strings(keys)
 	for _, k := range keys {
-		kk := k
+		kk := realName(k)
 		if rep%2 == 1 {
-			kk = norm.NFD.String(k)
+			kk = norm.NFD.String(kk)
 		}
 		out[kk] = Concretize(asJ(m[k]), rep)
 	}
